@@ -445,7 +445,11 @@ func genC08(r *Rand, tier string, ord int) *Trial {
 			tg.Seqs[i] = tailSNPs(r, ref, tg.Seqs[i])
 		}
 	}
-	c := Case{Cmd: "topranking", Files: map[string]string{"ref": ">ref\n" + ref + "\n", "query": q.FASTA(genLayout(r)), "target": tg.FASTA(genLayout(r))}}
+	layQ, layT := genLayout(r), genLayout(r)
+	if kind == "generated-wide" {
+		layQ, layT = wideLayout(r), wideLayout(r)
+	}
+	c := Case{Cmd: "topranking", Files: map[string]string{"ref": ">ref\n" + ref + "\n", "query": q.FASTA(layQ), "target": tg.FASTA(layT)}}
 	c.Opts = genTROpts(r, tg.Names)
 	c.Opts.QType, c.Opts.TType, c.Opts.Threads = "fasta", "fasta", 1
 	if kind == "generated" && r.P(0.04) {
